@@ -8,6 +8,7 @@ import (
 	"fmt"
 	"hash/fnv"
 	"os"
+	"runtime"
 	"sort"
 	"strconv"
 	"strings"
@@ -80,6 +81,7 @@ func (r *Rec) Assume(s string) {
 // property's stated non-triviality rule; classes feed the histogram; sample is
 // evaluated lazily only when the case is kept as a sample.
 func (r *Rec) Case(sig string, nontrivial bool, classes []string, sample func() interface{}) {
+	Tick("case of " + r.id)
 	r.mu.Lock()
 	defer r.mu.Unlock()
 	r.evals++
@@ -297,4 +299,59 @@ func ReportKnown(property, key string) {
 			}
 		}
 	}
+}
+
+// ---------------------------------------------------------------------------
+// Wedge watchdog for tests whose cases run in synctest bubbles. A goroutine
+// of the code under test that blocks on a lock (not on a channel or timer)
+// freezes the bubble's virtual clock, so no in-bubble timeout can fire and
+// the case would hang for ever. The watchdog lives outside the bubbles, in
+// real time; every recorded case (and explicit Tick calls) counts as
+// progress. No progress for the given real-time span means a request, reply
+// or shutdown step never returned: the process is wedged. It reports that as
+// a test failure with a goroutine dump and exits 1.
+
+var (
+	watchMu   sync.Mutex
+	watchSeq  int
+	watchWhat = "start"
+)
+
+// Tick records progress (safe to call from inside bubbles: it only counts).
+func Tick(what string) {
+	watchMu.Lock()
+	watchSeq++
+	watchWhat = what
+	watchMu.Unlock()
+}
+
+// Watch starts the watchdog for a test; call the returned function when the test ends.
+func Watch(name string, limit time.Duration) (stop func()) {
+	quit := make(chan struct{})
+	go func() {
+		t := time.NewTicker(2 * time.Second)
+		defer t.Stop()
+		seen, since := -1, time.Now()
+		for {
+			select {
+			case <-quit:
+				return
+			case <-t.C:
+				watchMu.Lock()
+				cur, what := watchSeq, watchWhat
+				watchMu.Unlock()
+				if cur != seen {
+					seen, since = cur, time.Now()
+					continue
+				}
+				if idle := time.Since(since); idle > limit {
+					buf := make([]byte, 1<<21)
+					n := runtime.Stack(buf, true)
+					fmt.Printf("--- FAIL: %s\n    WEDGE: no progress for %s after: %s\n    a call, reply or shutdown step never returned and virtual time cannot advance (a goroutine is blocked on a lock for ever); goroutines:\n%s\n", name, idle.Round(time.Second), what, buf[:n])
+					os.Exit(1)
+				}
+			}
+		}
+	}()
+	return func() { close(quit) }
 }
